@@ -108,6 +108,9 @@ def _alphabet() -> Dict[str, Dict[str, Any]]:
     op("gather_argmax", "gather_argmax", "torch.gather({h}, -1, {h}.argmax(-1).unsqueeze(-1).expand(B, S, D))", lambda h, m, i: ((h,), {}))
     op("add_ones", "add_ones", "{h} + torch.ones_like({h})", lambda h, m, i: ((h,), {}))
     op("index_rows", "index_rows", "{h}[:, torch.arange(S - 1, -1, -1)]", lambda h, m, i: ((h,), {}))
+    # a NON-FINITE intermediate (additive -inf masking before a softmax): its statistics are inf / nan
+    op("inf_mask_softmax", "inf_mask_softmax", "F.softmax({h}.masked_fill(self.imask{i}, float('-inf')), dim=-1)",
+       lambda h, m, i: ((h, g(m, "imask", i)), {}), ["self.register_buffer('imask{i}', torch.arange(D) % 4 == 3)"])
     op("with_zeros", "with_zeros", "{h} * self.zmask{i}", lambda h, m, i: ((h, g(m, "zmask", i)), {}),
        ["self.register_buffer('zmask{i}', (torch.arange(D) % 3 != 0).float())"])
     # ---- adds
@@ -326,6 +329,7 @@ class Semantics:
             "add_ones": lambda h: h + torch.ones_like(h),
             "index_rows": lambda h: h[:, torch.arange(S - 1, -1, -1)],
             "with_zeros": lambda h, z: h * z,
+            "inf_mask_softmax": lambda h, z: F.softmax(h.masked_fill(z, float("-inf")), dim=-1),
             "view_inplace": lambda h: (h * 2.0) + (h * 2.0)[:, 0].unsqueeze(1),
         }
         return table[key]
